@@ -143,6 +143,14 @@ def c08_extra(pid, tier, seed):
             qpaths.append(p)
         with cf.ThreadPoolExecutor(2) as ex:
             list(ex.map(one, qpaths))
+        # first use of segments without index files by several goroutines at once
+        rpaths = []
+        for i in range(2):
+            p = os.path.join(d, 'r%02d.txt' % i)
+            open(p, 'w').write('creindex %d\n' % (40 if tier == 'quick' else 800))
+            rpaths.append(p)
+        with cf.ThreadPoolExecutor(2) as ex:
+            list(ex.map(one, rpaths))
         # tailing consumers against a publisher: no gap although nothing is deleted
         ppaths = []
         for i in range(2):
@@ -151,7 +159,7 @@ def c08_extra(pid, tier, seed):
             ppaths.append(p)
         with cf.ThreadPoolExecutor(2) as ex:
             list(ex.map(one, ppaths))
-        paths = paths + spaths + gpaths + qpaths + ppaths
+        paths = paths + spaths + gpaths + qpaths + rpaths + ppaths
         # the protocol model on the same placements
         mp = os.path.join(d, 'model-placements.txt')
         open(mp, 'w').write('\n'.join(mlines) + '\n')
@@ -206,3 +214,26 @@ def c08_extra(pid, tier, seed):
     finally:
         if not os.environ.get('KV_KEEP'):
             shutil.rmtree(d, ignore_errors=True)
+
+
+def c11_extra(pid, tier, seed):
+    """C11 under concurrency: index files removed, reopen, the first queries of eight goroutines at once (each finds the
+    index unloaded and the file missing); every query must succeed and after Close every segment must pass Check"""
+    d = kv.workdir('reindex-' + pid)
+    try:
+        p = os.path.join(d, 'r.txt')
+        n = 60 if tier == 'quick' else 1500
+        open(p, 'w').write('creindex %d\n' % n)
+        env = dict(os.environ, KV_WORK=os.path.join(d, 'dirs'))
+        os.makedirs(env['KV_WORK'], exist_ok=True)
+        r = subprocess.run([kv.KVRUN, 'conc', p], stdout=subprocess.PIPE, stderr=subprocess.PIPE, text=True, env=env, timeout=1800)
+        res = [l for l in r.stdout.split('\n') if l.startswith('= ')]
+        viol = []
+        if r.returncode != 0 or not res or not res[0].startswith('= ok'):
+            viol.append(('P', '# C11 violated: removing the index files and reopening does not yield a log that answers every query '
+                              '(or leaves index files that are not the derived ones) when the first queries come from several goroutines\n'
+                              '# workload: kvrun conc: creindex %d\n# %s\n' % (n, res[0] if res else r.stderr[-800:])))
+        return viol, dict(concurrent_first_use=dict(iterations=n, rule='48 messages over ~12 segments, all index files removed, reopen '
+                                                                       'read-write / read-only, 8 goroutines x (3 Consume, Get, GetByKey, GetByTime, Stat) started together, Check of every segment after Close'))
+    finally:
+        shutil.rmtree(d, ignore_errors=True)
